@@ -51,49 +51,79 @@ def all_cpus():
     return sorted(os.sched_getaffinity(0))
 
 
-def _hash_inputs():
+def _hash_files(paths, extra=b''):
     h = hashlib.sha256()
-    paths = []
-    for base, pats in ((REPO / 'src', ('*.c', '*.h')), (REPO / 'include', ('**/*.h',)),
-                       (HARNESS_DIR, ('*.c', '*.h')), (CFG_DIR, ('**/*.h',)),
-                       (VERIF / 'vp', ('build.py',))):
-        for pat in pats:
-            paths.extend(sorted(base.glob(pat)))
-    for p in paths:
+    for p in sorted(set(paths)):
         if not p.is_file():
             continue
-        h.update(str(p.relative_to(p.anchor)).encode())
+        h.update(str(p).encode())
         h.update(b'\0')
         h.update(p.read_bytes())
         h.update(b'\0')
-    h.update(str(REPO).encode())
+    h.update(extra)
     return h.hexdigest()[:20]
 
 
+LIB_HARNESS_FILES = ['lib_flavor.c', 'vp_peek.h', 'vp_tun.h', 'vp_tun.c', 'vp_common.c', 'vp.h']
+_lib_key = None
 _build_dir = None
 
 
+def lib_key():
+    """Hash of everything the library archive + runtime objects depend on."""
+    global _lib_key
+    if _lib_key is None:
+        paths = []
+        for base, pats in ((REPO / 'src', ('*.c', '*.h')), (REPO / 'include', ('**/*.h',)),
+                           (CFG_DIR, ('**/*.h',))):
+            for pat in pats:
+                paths.extend(base.glob(pat))
+        paths += [HARNESS_DIR / f for f in LIB_HARNESS_FILES]
+        paths.append(VERIF / 'vp' / 'build.py')
+        _lib_key = _hash_files(paths, str(REPO).encode())
+    return _lib_key
+
+
+def harness_key(h):
+    spec = HARNESSES[h]
+    paths = [HARNESS_DIR / s for s in spec['srcs']] + list(HARNESS_DIR.glob('*.h'))
+    return _hash_files(paths, (lib_key() + ' '.join(spec['cflags'] + spec['ldflags'])).encode())
+
+
 def build_dir():
+    """Directory of the library build for the current /repo contents."""
     global _build_dir
     if _build_dir is None:
-        key = _hash_inputs()
-        _build_dir = BUILD_ROOT / key
+        _build_dir = BUILD_ROOT / ('lib-' + lib_key())
         _build_dir.mkdir(parents=True, exist_ok=True)
-        (_build_dir / '.stamp').write_text('')
-        os.utime(_build_dir / '.stamp')
-        _prune(key)
+        _touch(_build_dir)
+        _prune()
     return _build_dir
 
 
-def _prune(keep_key, keep=2):
+def _touch(d):
+    (d / '.stamp').write_text('')
+    os.utime(d / '.stamp')
+
+
+def _prune(max_age_s=6 * 3600, keep_newest=40):
+    """Remove build directories not used recently (bounded disk use; never the ones just touched)."""
+    import time
     try:
-        dirs = [d for d in BUILD_ROOT.iterdir() if d.is_dir() and d.name not in (keep_key, 'run')]
+        dirs = [d for d in BUILD_ROOT.iterdir() if d.is_dir() and d.name != 'run']
     except FileNotFoundError:
         return
-    dirs.sort(key=lambda d: (d / '.stamp').stat().st_mtime if (d / '.stamp').exists() else 0,
-              reverse=True)
-    for d in dirs[keep - 1:]:
-        shutil.rmtree(d, ignore_errors=True)
+    now = time.time()
+
+    def mt(d):
+        try:
+            return (d / '.stamp').stat().st_mtime
+        except OSError:
+            return 0
+    dirs.sort(key=mt, reverse=True)
+    for i, d in enumerate(dirs):
+        if i >= keep_newest or now - mt(d) > max_age_s:
+            shutil.rmtree(d, ignore_errors=True)
 
 
 def _gen_point_names(bd):
@@ -156,8 +186,20 @@ def _common_flags(variant, bd):
             '-DURCU_VERIF', '-D_GNU_SOURCE'] + v['cflags']
 
 
+_hdirs = {}
+
+
+def harness_dir(harness):
+    if harness not in _hdirs:
+        d = BUILD_ROOT / ('h-%s-%s' % (harness, harness_key(harness)))
+        d.mkdir(parents=True, exist_ok=True)
+        _touch(d)
+        _hdirs[harness] = d
+    return _hdirs[harness]
+
+
 def bin_path(harness, flavor, variant, lgpl=True):
-    return build_dir() / variant / ('%s_%s%s' % (harness, flavor, '' if lgpl else '_nolgpl'))
+    return harness_dir(harness) / variant / ('%s_%s%s' % (harness, flavor, '' if lgpl else '_nolgpl'))
 
 
 def ensure(targets, verbose=False):
@@ -204,9 +246,10 @@ def ensure(targets, verbose=False):
         result[(h, fl, var, lgpl)] = out
         if out.exists():
             continue
+        (out.parent / 'obj').mkdir(parents=True, exist_ok=True)
         hobjs = []
         for src in spec['srcs']:
-            o = vd / 'obj' / ('h_%s_%s_%s%s.o' % (h, src[:-2], fl, '' if lgpl else '_nolgpl'))
+            o = out.parent / 'obj' / ('h_%s_%s_%s%s.o' % (h, src[:-2], fl, '' if lgpl else '_nolgpl'))
             hobjs.append(o)
             cmd = base + [HARNESS_FLAVOR_DEF[fl]] + ([] if lgpl else ['-DVP_NO_LGPL']) + \
                 spec['cflags'] + ['-c', str(HARNESS_DIR / src), '-o', str(o)]
